@@ -7,9 +7,10 @@ git -C /repo worktree add -q --detach "$T/repo" HEAD || exit 2
 git -C "$T/repo" apply "$patch" || { echo "patch does not apply"; git -C /repo worktree remove --force "$T/repo"; exit 2; }
 cp /repo/Cargo.lock "$T/repo/Cargo.lock" 2>/dev/null
 export VERIF_REPO="$T/repo" VERIF_WORK="$T/work" VERIF_OUT="$T/out"
-cd /verif
+ROOT=${VERIF_SNAP:-/verif}
+cd $ROOT
 for p in "$@"; do
-  python3 /verif/harness/check.py "$p" 2>/dev/null | grep -E "VIOLATION|KNOWN|: ok|: FAIL" | sed "s/^/[$name] /"
+  python3 $ROOT/harness/check.py "$p" 2>/dev/null | grep -E "VIOLATION|KNOWN|: ok|: FAIL" | sed "s/^/[$name] /"
 done > "$T/result.txt"
 cat "$T/result.txt"
 git -C /repo worktree remove --force "$T/repo"
